@@ -97,6 +97,16 @@ Theorem c07_flatten_keeps_joins : forall s,
 Proof. exact (fun s => conj (strip_lb_keeps s) (strip_lb_svg_keeps s)). Qed.
 Print Assumptions c07_flatten_keeps_joins.
 
+(* the linear-time twins the driver executes (List.rev replaced by rev_append) are the functions
+   the theorems above speak about *)
+Theorem c07_execution_twins : forall s,
+  strip_lb_fast s = strip_lb s /\ strip_lb_svg_fast s = strip_lb_svg s
+  /\ trim_space_fast s = trim_space s /\ split_on_fast 10 s = split_on 10 s.
+Proof.
+  exact (fun s => conj (strip_lb_fast_eq s) (conj (strip_lb_svg_fast_eq s) (conj (trim_space_fast_eq s) (split_on_fast_eq 10 s)))).
+Qed.
+Print Assumptions c07_execution_twins.
+
 (* ---- non-vacuity ---- *)
 (* "<svg>\n <path d=\"M 1 2\n  L 3 4\"/>\n</svg>\n" with a U+00A0 before a line end *)
 Example c07_nonvacuous :
